@@ -15,8 +15,11 @@
                                      has_plutus_inputs 2523-2560, build_tx 2566-2583 (the two Plutus pre-conditions)
    Containers: BTreeMap = key-sorted association list (sm_ functions), hashlink::LinkedHashMap = insertion-ordered
    association list whose insert / entry().or_insert move the entry to the back (lm_ functions).
-   Scripts, datums, ex-units, assets, amounts, vote contents are not modelled (they do not influence
-   pointers); a redeemer is (tag, index, data marker). *)
+   Mint quantities are modelled as far as they decide whether a transaction is built (a call with amount 0 is
+   refused, an asset whose accumulated quantity is 0 makes MintBuilder::build fail).  Scripts, datums, ex-units,
+   withdrawal / deposit / input amounts and vote contents are not modelled: they must not influence the body's item
+   lists or the pointers, which the correspondence run checks with zero and boundary amounts.
+   A redeemer is (tag, index, data marker). *)
 From CSL Require Import Base.Prelude Base.BytesOrd.
 Local Open Scope N_scope.
 
@@ -200,7 +203,10 @@ Definition ib_has_plutus (st : ibuilder) : bool :=
 (* ---------------------------------------------------------------------------------------- *)
 (* MintBuilder *)
 Inductive mint_wit := MNative (is_ref : bool) | MPlutus (is_ref : bool) (rid : N).
-Record mint_op := mkMintOp { mo_policy : bytes; mo_wit : mint_wit; mo_zero : bool }.   (* add_asset(witness, name, amount); zero = amount is 0 *)
+(* add_asset / set_asset (witness, asset name, amount): the asset name is a number, the amount an integer
+   (negative = burn), set = set_asset (overwrite) instead of add_asset (accumulate) *)
+Record mint_op := mkMintOp { mo_policy : bytes; mo_wit : mint_wit; mo_asset : N; mo_amount : Z; mo_set : bool }.
+Definition mo_zero (o : mint_op) : bool := (mo_amount o =? 0)%Z.                    (* "Mint cannot be zero." *)
 Definition mbuilder := list (bytes * mint_wit).                       (* BTreeMap policy -> ScriptMint *)
 (* validate_mint_witness against the entry already stored for the policy *)
 Definition mint_compatible (cur w : mint_wit) : bool :=
@@ -219,6 +225,14 @@ Definition mint_entry_redeemer (ie : N * (bytes * mint_wit)) : list redeemer :=
   match snd (snd ie) with MPlutus _ rid => [mkR TMint (fst ie) rid] | MNative _ => [] end.
 Definition mint_plutus (st : mbuilder) : list redeemer := flat_map mint_entry_redeemer (enum_from 0 st).
 Definition mint_body (st : mbuilder) : list bytes := map fst st.
+(* the quantities kept inside the ScriptMint entries: (policy, asset) -> accumulated amount (a BTreeMap per policy,
+   flattened to one map keyed by the pair; outpoint_ltb is the lexicographic order on bytes * N).  Only accepted
+   calls change it.  Quantities outside the Int range (add_amounts error, MIN_MINT_AMOUNT) are not modelled. *)
+Definition mint_amounts := list ((bytes * N) * Z).
+Definition mint_amt_step (am : mint_amounts) (op : mint_op) : mint_amounts :=
+  let k := (mo_policy op, mo_asset op) in
+  let cur := match al_get outpoint_ltb k am with Some q => q | None => 0%Z end in
+  sm_insert outpoint_ltb k (if mo_set op then mo_amount op else (cur + mo_amount op)%Z) am.
 Definition mint_has_plutus (st : mbuilder) : bool :=
   existsb (fun e => match snd e with MPlutus _ _ => true | _ => false end) st.
 
@@ -292,8 +306,8 @@ Definition prop_body (st : pbuilder) : list proposal := map fst st.
 (* the transaction builder: sub-builders, witness collection, build_tx pre-conditions *)
 Record txb := mkTxb {
   t_inputs : ibuilder; t_collateral : ibuilder; t_mint : mbuilder; t_certs : cbuilder;
-  t_wdrl : wbuilder; t_votes : vbuilder; t_props : pbuilder }.
-Definition txb_empty : txb := mkTxb ib_empty ib_empty [] [] [] [] [].
+  t_wdrl : wbuilder; t_votes : vbuilder; t_props : pbuilder; t_mint_amt : mint_amounts }.
+Definition txb_empty : txb := mkTxb ib_empty ib_empty [] [] [] [] [] [].
 
 Inductive op :=
 | OpIn (o : in_op) | OpCol (o : in_op) | OpMint (m : mint_op) | OpCert (c : wop cert)
@@ -303,18 +317,19 @@ Inductive op :=
 Definition step (st : txb) (o : op) : txb * bool :=
   let keep {A} (r : result A) (old : A) : A * bool := match r with Ok a => (a, true) | _ => (old, false) end in
   match o with
-  | OpIn i => (mkTxb (ib_step (t_inputs st) i) (t_collateral st) (t_mint st) (t_certs st) (t_wdrl st) (t_votes st) (t_props st), true)
-  | OpCol i => (mkTxb (t_inputs st) (ib_step (t_collateral st) i) (t_mint st) (t_certs st) (t_wdrl st) (t_votes st) (t_props st), true)
+  | OpIn i => (mkTxb (ib_step (t_inputs st) i) (t_collateral st) (t_mint st) (t_certs st) (t_wdrl st) (t_votes st) (t_props st) (t_mint_amt st), true)
+  | OpCol i => (mkTxb (t_inputs st) (ib_step (t_collateral st) i) (t_mint st) (t_certs st) (t_wdrl st) (t_votes st) (t_props st) (t_mint_amt st), true)
   | OpMint m => let (x, ok) := keep (mint_step (t_mint st) m) (t_mint st) in
-                (mkTxb (t_inputs st) (t_collateral st) x (t_certs st) (t_wdrl st) (t_votes st) (t_props st), ok)
+                (mkTxb (t_inputs st) (t_collateral st) x (t_certs st) (t_wdrl st) (t_votes st) (t_props st)
+                       (if ok then mint_amt_step (t_mint_amt st) m else t_mint_amt st), ok)
   | OpCert c => let (x, ok) := keep (cert_step (t_certs st) c) (t_certs st) in
-                (mkTxb (t_inputs st) (t_collateral st) (t_mint st) x (t_wdrl st) (t_votes st) (t_props st), ok)
+                (mkTxb (t_inputs st) (t_collateral st) (t_mint st) x (t_wdrl st) (t_votes st) (t_props st) (t_mint_amt st), ok)
   | OpWd w => let (x, ok) := keep (wd_step (t_wdrl st) w) (t_wdrl st) in
-              (mkTxb (t_inputs st) (t_collateral st) (t_mint st) (t_certs st) x (t_votes st) (t_props st), ok)
+              (mkTxb (t_inputs st) (t_collateral st) (t_mint st) (t_certs st) x (t_votes st) (t_props st) (t_mint_amt st), ok)
   | OpVote v => let (x, ok) := keep (vote_step (t_votes st) v) (t_votes st) in
-                (mkTxb (t_inputs st) (t_collateral st) (t_mint st) (t_certs st) (t_wdrl st) x (t_props st), ok)
+                (mkTxb (t_inputs st) (t_collateral st) (t_mint st) (t_certs st) (t_wdrl st) x (t_props st) (t_mint_amt st), ok)
   | OpProp p => let (x, ok) := keep (prop_step (t_props st) p) (t_props st) in
-                (mkTxb (t_inputs st) (t_collateral st) (t_mint st) (t_certs st) (t_wdrl st) (t_votes st) x, ok)
+                (mkTxb (t_inputs st) (t_collateral st) (t_mint st) (t_certs st) (t_wdrl st) (t_votes st) x (t_mint_amt st), ok)
   end.
 
 Definition run_from (st : txb) (ops : list op) : txb * list bool :=
@@ -349,9 +364,11 @@ Record built := mkBuilt {
    witness that is registered but not emitted (an input re-added as a key input keeps its old witness) therefore makes
    build_tx fail.  Fee and balance are arranged by the harness (add_change_if_needed). *)
 Definition tx_build (st : txb) : result built :=
-  if tx_has_plutus st
-     && (match all_witness_redeemers st with [] => true | _ => false end
-         || match ib_inputs (t_collateral st) with [] => true | _ => false end)
+  if (tx_has_plutus st
+      && (match all_witness_redeemers st with [] => true | _ => false end
+          || match ib_inputs (t_collateral st) with [] => true | _ => false end))
+     (* MintBuilder::build: an asset whose accumulated quantity is 0 is an error ("MintAssets cannot be created with 0 value") *)
+     || existsb (fun e => (snd e =? 0)%Z) (t_mint_amt st)
   then Err
   else Ok (mkBuilt (ib_body (t_inputs st)) (ib_body (t_collateral st)) (mint_body (t_mint st)) (cert_body (t_certs st))
                    (wd_body (t_wdrl st)) (vote_body (t_votes st)) (prop_body (t_props st)) (tx_redeemers st)).
